@@ -17,11 +17,11 @@ import (
 )
 
 type c11cfg struct {
-	api   string   // multi (DoMultiCache of GETs) | mget (DoCache MGET) | helper (MGetCache)
-	wires int      // 1 or 2 multiplexed connections
-	batch []string // keys, duplicates allowed
+	api   string            // multi (DoMultiCache of GETs) | mget (DoCache MGET) | helper (MGetCache)
+	wires int               // 1 or 2 multiplexed connections
+	batch []string          // keys, duplicates allowed
 	pre   map[string]string // key -> hit | miss | pending
-	store string   // lru | adapter
+	store string            // lru | adapter
 }
 
 func (c c11cfg) name() string {
